@@ -99,6 +99,30 @@ DEFECTS = {
         ('% echo @[STR_TM]@', None, VAL),
         ('file f-defect.txt = "x" -transformed-by filter STR_TM', None, VAL),
     ],
+    'self-reference': [
+        # a definition is not visible inside itself: the reference is to an undefined symbol
+        ('def string SELF_DEFECT = x@[SELF_DEFECT]@', None, VAL),
+        ('def string SELF_DEFECT = "@[SELF_DEFECT]@"', None, VAL),
+        ('def list SELF_DEFECT = a @[SELF_DEFECT]@ b', None, VAL),
+        ('def path SELF_DEFECT = -rel SELF_DEFECT sub', None, VAL),
+        ('def path SELF_DEFECT = @[SELF_DEFECT]@/sub', None, VAL),
+        ('def text-matcher SELF_DEFECT = ! SELF_DEFECT', None, VAL),
+        ('def text-transformer SELF_DEFECT = identity | SELF_DEFECT', None, VAL),
+        ('def program SELF_DEFECT = @ SELF_DEFECT arg', None, VAL),
+        ('def text-source SELF_DEFECT = "a @[SELF_DEFECT]@"', None, VAL),
+    ],
+    'wrong-type-in-path': [
+        # inside a FILE-NAME only string symbols may be referenced (a leading path symbol followed by / apart)
+        ('dir out-@[WP]@', None, VAL),
+        ('dir -rel-tmp out-@[WP]@', None, VAL),
+        ('file name-@[LST]@.txt = "c"', None, VAL),
+        ('dir a/b-@[LST]@-@[WP]@/c', None, VAL),
+        ('cd sub-@[WP]@', None, VAL),
+        ('def path Q_DEFECT = pre-@[WP]@', None, VAL),
+        ('def path Q_DEFECT = -rel-act @[STR]@/@[LST]@', None, VAL),
+        ('file f-defect.txt = "x" -transformed-by replace a @[TM0]@', None, VAL),
+        ('% echo -existing-path x-@[TM0]@', None, VAL),
+    ],
     'illegal-relativity-via-symbol': [
         ('file @[HP]@ = "c"', None, VAL),
         ('dir @[HP]@/d', None, VAL),
@@ -157,6 +181,8 @@ BASE_DEFS = [
     'def path RP = -rel-result x',
     'def text-matcher STR_TM = equals @[STR]@',
     'def line-matcher LM_OF_STR = contents STR_TM',
+    'def path WP = -rel-act wp',
+    'def list LST = e1 e2',
 ]
 
 
